@@ -1055,6 +1055,87 @@ pub fn generate(s: &mut Session, thorough: bool) -> bool {
         s.push_oracle("clusterx-ulp-twins", req, imp, why);
     }
 
+    // neighbouring doubles across the edge of the winning Hough bin: a clean 25-point track, plus two hits
+    // on it whose radii are adjacent doubles, one voting for the track's winning bin and one not (found by
+    // bisection on the real get_bins), the non-voting one FIRST in the input. The voting twin belongs to
+    // the cluster, the other to the remainder; they are told apart by `==` only (seed C15-10)
+    {
+        let mut made = 0usize;
+        for _ in 0..(if thorough { 400 } else { 60 }) {
+            let track = helix_points(&mut rng, 25, 0.0);
+            if track.len() < 25 {
+                continue;
+            }
+            let (rb, tb) = (public.rho_bins, public.theta_bins);
+            let mut votes: std::collections::HashMap<(u32, u32), usize> = Default::default();
+            let mut ok = true;
+            for p in &track {
+                match real_bins(*p, rb, tb) {
+                    Ok(b) => {
+                        for x in b {
+                            *votes.entry(x).or_default() += 1;
+                        }
+                    }
+                    Err(_) => ok = false,
+                }
+            }
+            if !ok {
+                continue;
+            }
+            let Some((&win, &nv)) = votes.iter().max_by_key(|(k, v)| (**v, **k)) else { continue };
+            if nv < 20 {
+                continue;
+            }
+            let base = track[12];
+            let (phi, z) = (base.phi.value, base.z.value);
+            let votes_win = |r: f64| real_bins(sp(r, phi, z), rb, tb).map(|b| b.contains(&win)).unwrap_or(false);
+            if !votes_win(base.r.value) {
+                continue;
+            }
+            // walk outwards (or inwards) until the winning bin is lost, then bisect on the bit patterns
+            let dirn = if rng.bool() { 1.0005 } else { 0.9995 };
+            let (mut r_in, mut r_out) = (base.r.value, base.r.value);
+            let mut found = false;
+            for _ in 0..400 {
+                r_out *= dirn;
+                if !(R_MIN..=R_MAX).contains(&r_out) {
+                    break;
+                }
+                if !votes_win(r_out) {
+                    found = true;
+                    break;
+                }
+                r_in = r_out;
+            }
+            if !found {
+                continue;
+            }
+            let (mut a, mut b) = (r_in.to_bits(), r_out.to_bits());
+            while (a as i64 - b as i64).abs() > 1 {
+                let m = if a < b { a + (b - a) / 2 } else { b + (a - b) / 2 };
+                if votes_win(f64::from_bits(m)) {
+                    a = m;
+                } else {
+                    b = m;
+                }
+            }
+            let (t_in, t_out) = (sp(f64::from_bits(a), phi, z), sp(f64::from_bits(b), phi, z));
+            let mut pts = vec![t_out];
+            pts.extend(track.iter().copied());
+            pts.push(t_in);
+            let (req, imp, why) = run_clusterx("clusterx", &pts, public);
+            s.push_oracle("clusterx-bin-edge-twins", req, imp, why);
+            // and the other way round (the voting twin first)
+            let mut pts = vec![t_in];
+            pts.extend(track.iter().copied());
+            pts.push(t_out);
+            let (req, imp, why) = run_clusterx("clusterx", &pts, public);
+            s.push_oracle("clusterx-bin-edge-twins", req, imp, why);
+            made += 1;
+        }
+        s.notes.insert("bin_edge_twin_pairs".into(), serde_json::json!(made));
+    }
+
     // clouds with a NaN coordinate (outside C15's quantifier: `p == p` is false and the real
     // `remove_unchecked` panics when such a point is in a best cluster): the model must panic
     // exactly when the implementation does; no oracle verdict.
